@@ -93,6 +93,8 @@ def lworld0 (lc : LifeCycle) : World M LV where
   setItem _ _ _ := throw "TypeError"
   iter _ := throw "TypeError"
   unstar _ := throw "TypeError"
+  format _ := throw "TypeError"
+  concat _ := throw "TypeError"
   other _ := throw "Unsupported"
   throw cls := throw cls
   rethrow := throw "reraise"
